@@ -119,6 +119,34 @@ private:
     int fId; const std::string* fData; Schedule fSched; StreamFaults fFaults; MemoryManager* fMM;
 };
 
+#if defined(__has_feature)
+#if __has_feature(address_sanitizer)
+#define SIM_HAS_ASAN 1
+#endif
+#endif
+#ifdef SIM_HAS_ASAN
+extern "C" void __asan_poison_memory_region(void const volatile* addr, size_t size);
+extern "C" void __asan_unpoison_memory_region(void const volatile* addr, size_t size);
+#define SIM_POISON(p, n) __asan_poison_memory_region((p), (n))
+#define SIM_UNPOISON(p, n) __asan_unpoison_memory_region((p), (n))
+#else
+#define SIM_POISON(p, n) ((void)0)
+#define SIM_UNPOISON(p, n) ((void)0)
+#endif
+
+extern "C" void __sanitizer_print_stack_trace();
+extern "C" void __sanitizer_symbolize_pc(void* pc, const char* fmt, char* out_buf, size_t out_buf_size);
+inline void simPrintStack() { __sanitizer_print_stack_trace(); }
+
+// Process-wide pool of big raw blocks (>= 64 KB, rounded to 4 KB). See CachingGlobalMM below for why.
+struct BigPool {
+    static const size_t kBig = 65536;
+    static std::map<size_t, std::vector<void*>>& freeLists() { static std::map<size_t, std::vector<void*>> m; return m; }
+    static size_t capOf(size_t size) { return (size + 4095) & ~(size_t)4095; }
+    static void* get(size_t size) { size_t cap = capOf(size); auto& fl = freeLists()[cap]; void* p; if (!fl.empty()) { p = fl.back(); fl.pop_back(); } else { p = malloc(cap); if (!p) return nullptr; } SIM_UNPOISON(p, size); SIM_POISON((char*)p + size, cap - size); return p; }
+    static void put(void* p, size_t size) { size_t cap = capOf(size); auto& fl = freeLists()[cap]; if (fl.size() >= 16) { SIM_UNPOISON(p, cap); free(p); return; } SIM_POISON(p, cap); fl.push_back(p); }
+};
+
 // ---------- memory manager with ledger
 struct MemViolation { std::string kind; uint64_t allocNo; size_t size; };
 
@@ -126,13 +154,15 @@ class SimMemoryManager : public MemoryManager {
 public:
     explicit SimMemoryManager(const char* name = "mm") : fName(name) {}
     ~SimMemoryManager() { releaseQuarantine(); }
-    MemoryManager* getExceptionMemoryManager() override { return XMLPlatformUtils::fgMemoryManager ? XMLPlatformUtils::fgMemoryManager->getExceptionMemoryManager() : this; }
+    MemoryManager* getExceptionMemoryManager() override { return XMLPlatformUtils::fgMemoryManager && XMLPlatformUtils::fgMemoryManager != this ? XMLPlatformUtils::fgMemoryManager->getExceptionMemoryManager() : this; }
     void* allocate(XMLSize_t size) override {
         g_run.tick(); fCount++;
         if (failAt && fCount == failAt) { g_run.fault("alloc_fail"); throw OutOfMemoryException(); }
-        void* p = malloc(size ? size : 1);
+        void* p = size >= BigPool::kBig ? BigPool::get(size) : malloc(size ? size : 1);
         if (!p) throw OutOfMemoryException();
-        fLive[p] = Blk{ fCount, size };
+        // debugging aid for replays: VERIF_TRAP_ALLOC=<manager name>:<allocation number> prints the allocation stack
+        { static const char* trap = getenv("VERIF_TRAP_ALLOC"); if (trap) { const char* c = strchr(trap, ':'); if (c && fName.compare(0, std::string::npos, trap, (size_t)(c - trap)) == 0 && strtoull(c + 1, 0, 10) == fCount) { fprintf(stderr, "=== allocation #%llu of manager '%s' (%zu bytes)\n", (unsigned long long)fCount, fName.c_str(), (size_t)size); simPrintStack(); } } }
+        { Blk b; b.no = fCount; b.size = size; capture(b.pc); fLive[p] = b; }
         fBytes += size; if (fLive.size() > fPeak) fPeak = fLive.size();
         return p;
     }
@@ -144,21 +174,42 @@ public:
             else viol.push_back(MemViolation{ "foreign-free", 0, 0 });
             return;     // never hand an unknown pointer to free()
         }
+        // freed blocks stay quarantined (and ASan-poisoned) until the manager is released: reuse cannot mask a double free
         fFreed[p] = it->second; fLive.erase(it);
-        if (!quarantine) { fFreed.erase(p); free(p); }
+        if (!quarantine) { Blk b = fFreed[p]; fFreed.erase(p); giveBack(p, b.size); }
+        else SIM_POISON(p, fFreed[p].size);
     }
+    void giveBack(void* p, size_t size) { if (size >= BigPool::kBig) BigPool::put(p, size); else { SIM_UNPOISON(p, size ? size : 1); free(p); } }
     size_t outstanding() const { return fLive.size(); }
     uint64_t count() const { return fCount; }
     std::string outstandingSummary(size_t max = 5) const {
         std::vector<std::pair<uint64_t, size_t>> v; for (auto& e : fLive) v.emplace_back(e.second.no, e.second.size);
         std::sort(v.begin(), v.end()); std::string s; for (size_t i = 0; i < v.size() && i < max; i++) s += "#" + std::to_string(v[i].first) + "(" + std::to_string(v[i].second) + "B) "; return s;
     }
-    void releaseQuarantine() { for (auto& e : fFreed) free(e.first); fFreed.clear(); }
-    void releaseAll() { releaseQuarantine(); for (auto& e : fLive) free(e.first); fLive.clear(); }
+    void releaseQuarantine() { for (auto& e : fFreed) giveBack(e.first, e.second.size); fFreed.clear(); }
+    void releaseAll() { releaseQuarantine(); for (auto& e : fLive) giveBack(e.first, e.second.size); fLive.clear(); }
     uint64_t failAt = 0; bool quarantine = true;
     std::vector<MemViolation> viol;
 private:
-    struct Blk { uint64_t no; size_t size; };
+    struct Blk { uint64_t no; size_t size; void* pc[6]; };
+    // cheap allocation-site capture: frame-pointer walk (everything is built with -fno-omit-frame-pointer)
+    static void capture(void** out) {
+        for (int i = 0; i < 6; i++) out[i] = nullptr;
+        void** fp = (void**)__builtin_frame_address(0); int n = 0;
+        for (int depth = 0; depth < 12 && n < 6 && fp; depth++) { void* pc = fp[1]; void** next = (void**)fp[0]; if (depth >= 1 && pc) out[n++] = pc; if (next <= fp || (char*)next - (char*)fp > (1 << 20) || ((uintptr_t)next & 7)) break; fp = next; }
+    }
+public:
+    // name of the first library function above the allocator plumbing for the oldest outstanding block (stable class for leaks)
+    std::string leakSite(std::string* chain = nullptr) const {
+        const Blk* first = nullptr; for (auto& e : fLive) if (!first || e.second.no < first->no) first = &e.second;
+        if (!first) return "?";
+        std::string site; for (int i = 0; i < 6 && first->pc[i]; i++) { char buf[512] = ""; __sanitizer_symbolize_pc((char*)first->pc[i] - 1, "%f", buf, sizeof buf); std::string f = buf; size_t par = f.find('('); if (par != std::string::npos) f = f.substr(0, par);
+            if (chain) { if (!chain->empty()) *chain += " <- "; *chain += f; }
+            if (site.empty() && f.find("MemoryManager") == std::string::npos && f.find("XMemory::operator new") == std::string::npos && f.find("operator new") == std::string::npos && !f.empty()) site = f; }
+        size_t ns = site.find("xercesc_4_0::"); if (ns == 0) site = site.substr(13);
+        return site.empty() ? "?" : site;
+    }
+private:
     std::string fName; uint64_t fCount = 0, fBytes = 0; size_t fPeak = 0;
     std::unordered_map<void*, Blk> fLive, fFreed;
 };
@@ -245,7 +296,7 @@ public:
         h->reads++;
         if (h->f->readThrowAt >= 0 && h->reads == (uint64_t)h->f->readThrowAt) { g_run.fault("file_read_throw"); g_run.evs("file_read_throw", h->path); ThrowXMLwithMemMgr(XMLPlatformUtilsException, XMLExcepts::File_CouldNotReadFromFile, manager); }
         size_t want = h->next < h->f->sched.sizes.size() ? h->f->sched.sizes[h->next++] : h->f->sched.rest;
-        size_t left = h->f->data.size() - h->pos; size_t n = std::min(std::min(want, (size_t)byteCount), left);
+        size_t left = h->pos < h->f->data.size() ? h->f->data.size() - h->pos : 0; size_t n = std::min(std::min(want, (size_t)byteCount), left);
         if (n < left && n < byteCount) g_run.fault("short_read");
         memcpy(buffer, h->f->data.data() + h->pos, n); h->pos += n; g_run.ev("fread", (uint64_t)h->f->id, n);
         if (g_boundarySink) (*g_boundarySink)[h->f->id].push_back(h->pos);
